@@ -70,6 +70,12 @@ def code_schema():
             return int(node.value)
         if isinstance(node, _A.FloatValue):
             return float(node.value)
+        if isinstance(node, _A.ListValue):
+            return [raw_literal(x, variables) for x in node.values]
+        if isinstance(node, _A.ObjectValue):
+            return {f.name.value: raw_literal(f.value, variables) for f in node.fields}
+        if isinstance(node, _A.NullValue):
+            return None
         return node.value
     raw = ScalarType("Raw", serialize=lambda v: v, parse=lambda v: v, parse_literal=raw_literal)
     code = ScalarType("Code", serialize=str, parse=str)
@@ -109,7 +115,9 @@ def code_schema():
         # a pass-through custom scalar with defaults that are equal as Python values but different literals (1 / true / 1.0; 0 / false)
         Field("raw", raw, args=[Argument("r1", raw, default_value=1), Argument("r2", raw, default_value=True), Argument("r3", raw, default_value=1.0),
                                 Argument("r4", ListType(raw), default_value=[0, False, 0.0]), Argument("r5", raw, default_value=False),
-                                Argument("r6", raw, default_value=0)]),
+                                Argument("r6", raw, default_value=0),
+                                # a JSON-like value of the scalar: written as a list / object literal
+                                Argument("r7", raw, default_value={"tags": ["a", 1, None, True], "nested": {"k": [], "f": 1.5}}), Argument("r8", raw, default_value=[])]),
         Field("email", email, args=[Argument("like", email, default_value="a@b")]),
         # string defaults of a custom scalar that merely LOOK numeric
         Field("code", code, args=[Argument("c%d" % i, code, default_value=v) for i, v in enumerate(["nan", "Infinity", "0612345678", "1e5", "1_000", " 12 ", "1.50", "-0", "12", "1.5"])]), Field("sub", ListType(sub_object)), Field("shade", sub_enum), Field("e0", String, deprecation_reason=""),
